@@ -643,8 +643,6 @@ def judge(kind, v, cfg, vals, R, x, rank):
         out.append(('final-state', 'final (compression enabled, threshold, '
                     'reactor, spawned): expected %r, observed %r'
                     % (R.view(), tuple(obs['final']))))
-    X, TID = vals['X'], vals['TID']
-
     def rx_form(p):
         if p[0] == 'sb.KeepAlive':
             return ('keepalive', p[1])
